@@ -19,7 +19,7 @@ RULE = ("one evaluation = one chunked read of a generated well-formed file on si
 
 FORMAT_WEIGHTS = [(3, "bed3"), (2, "bed6"), (2, "bdg"), (2, "narrowpeak"), (2, "vcf"), (2, "vcfinfo"), (1, "vcfgt"), (1, "wig"), (1, "gff3"), (1, "gfa"), (1, "pairs"), (2, "sam"), (2, "gtf"),
                   (3, "fasta2"), (3, "fastaw"), (3, "fastq"), (1, "bed12"), (1, "sizes")]
-SCHEDS = [(2, "fixed"), (4, "sweep"), (2, "varying"), (1, "default_iter"), (1, "default_stream")]
+SCHEDS = [(2, "fixed"), (4, "sweep"), (2, "varying"), (1, "default_iter"), (1, "default_stream"), (2, "capped")]
 
 
 def _weighted_first_value(pairs, item):
@@ -161,7 +161,11 @@ def generate(ctx):
     stream_api = tape.boolean("stream_api")
     sc = {"file": fd, "schedule": sched, "k": k, "ks_varying": ks_var, "stream_api": stream_api,
           "file_b": None, "k_b": None, "eio_nth": 0, "interleaving": []}
-    if sched != "sweep":
+    if sched == "capped":
+        # max_chunk_size = mult * k + add for every k of the sweep: the cap is reached exactly / just missed
+        sc["cap_mult"] = 1 + tape.draw(3, "cap.mult")
+        sc["cap_add"] = tape.weighted([(3, 0), (2, 1), (1, 2), (1, 7), (1, 40)], "cap.add")
+    if sched not in ("sweep", "capped"):
         if tape.boolean("interleave", 1, 5):
             sc["file_b"] = gen_file(ctx, "b.", max_records)
             sc["k_b"] = 1 + tape.draw(sc["file_b"]["size"] + 2, "b.k")
@@ -195,6 +199,15 @@ def execute(ctx, sc):
                     v.rewrite = {"sched": _weighted_first_value(SCHEDS, "fixed"), "k": k - 1,
                                  "stream_api": 1 if k % 2 == 0 else 0}
                     raise
+        elif sched == "capped":
+            for k in range(1, f.size + 3):
+                cap = sc["cap_mult"] * k + sc["cap_add"]
+                cr = iosim.ChunkedRead(f.spec, k, stream_api=(k % 2 == 0), cap=cap).run_to_end()
+                ctx.steps += len(cr.chunk_sizes) + 1
+                if cr.error is not None and cr.error.type != "NoProgress" and cap < 2 * f.big + 2:
+                    ctx.probe("raise_under_small_cap_accepted")   # an entry may not fit under the cap: loud, allowed
+                    continue
+                check_read(ctx, f, cr, k, ref, "capped")
         else:
             k_eff = sc["k"]
             if sched == "fixed":
